@@ -19,6 +19,10 @@
 #define VF_ASAN 0
 #endif
 
+// progress counter of the hang watchdog (common.cpp): bumped wherever a case allocates a buffer, builds an instrument,
+// feeds input or reports a count; no progress over 20 s of CPU time = the library does not return
+namespace vf { inline volatile unsigned long vf_progress = 0; inline void vfTick() { vf_progress = vf_progress + 1; } }
+
 namespace vf {
 struct XBuf {
     char *base;
@@ -26,6 +30,7 @@ struct XBuf {
     size_t n;
     static const size_t kCanary = 16;
     explicit XBuf(size_t len, unsigned char fill = 0xA5) : n(len) {
+        vfTick();
 #if VF_ASAN
         base = (char *) malloc(len ? len : 1);
         p = len ? base : base + 1;
